@@ -32,7 +32,8 @@ ALLOWED_NODES = (
     ast.Constant, ast.Name, ast.Load, ast.Store, ast.BinOp, ast.Add, ast.Mult, ast.Mod, ast.JoinedStr, ast.FormattedValue,
     ast.Call, ast.keyword, ast.Starred, ast.Set, ast.Dict, ast.List, ast.Tuple, ast.ListComp, ast.SetComp, ast.DictComp,
     ast.GeneratorExp, ast.comprehension, ast.Attribute, ast.Subscript, ast.Slice, ast.IfExp, ast.Compare, ast.Eq,
-    ast.NotEq, ast.In, ast.NotIn, ast.BoolOp, ast.And, ast.Or, ast.UnaryOp, ast.Not, ast.USub,
+    ast.NotEq, ast.In, ast.NotIn, ast.BoolOp, ast.And, ast.Or, ast.UnaryOp, ast.Not, ast.USub, ast.FloorDiv, ast.Sub,
+    ast.Lt, ast.LtE, ast.Gt, ast.GtE,
     # statements inside pure helper functions
     ast.Assign, ast.AugAssign, ast.AnnAssign, ast.Return, ast.For, ast.If, ast.Expr, ast.Pass, ast.arguments, ast.arg,
 )
